@@ -336,13 +336,34 @@ def _sample2(r, case):
             u[start] = pts[state['i'], 0]
             u[1 - start] = pts[state['i'], 1]
             return u
-        with seams.seam(script={'uniform': uni, 'randint': lambda lo, hi=None, size=None: start}) as log:
+        ri = []
+        with seams.seam(script={'uniform': uni, 'randint': lambda lo, hi=None, size=None: (ri.append(1), start)[1]}) as log:
             r.tr()
             try:
                 out = v.sample(n)
+            except StopIteration:
+                out = None
             except Exception as ex:
                 r.violation(f'{sigp}:sample-raises:{type(ex).__name__}', f'{tag}: sample raised {type(ex).__name__}: {ex}', case=case)
                 return r
+        if out is None or state['i'] != n - 1 or len(ri) != n:
+            # the row sampler draws its randomness differently: decide the distributional clause on a seeded real sample
+            r.hit('protocol-changed')
+            v.set_random_state(17)
+            out = v.sample(1500)
+            O = out.to_numpy(dtype=float)
+            if list(out.columns) != cols or O.shape != (1500, 2) or np.isnan(O).any():
+                r.violation(f'{sigp}:sample-schema', f'{tag}: sample(1500) has shape {O.shape}', case=case)
+                return r
+            worst = 0.0
+            for j in (0, 1):
+                Fj = np.sort(np.asarray(ref_unis[j].cumulative_distribution(O[:, j].copy()), float))
+                worst = max(worst, np.max(np.arange(1, 1501) / 1500 - Fj), np.max(Fj - np.arange(0, 1500) / 1500))
+            tt = tau_b(O[:, 0], O[:, 1])
+            if worst > 3.27 / np.sqrt(1500) + 0.02 or abs(tt - tau_model) > 0.15:
+                r.violation(f'{sigp}:sample2:closure', f'{tag}: seeded sample of 1500 rows: marginal KS {worst:.3f}, Kendall tau '
+                            f'{tt:.3f} vs pair-copula tau {tau_model:.3f}', case=case)
+            break
         O = out.to_numpy(dtype=float)
         if list(out.columns) != cols or O.shape != (n, 2) or np.isnan(O).any():
             r.violation(f'{sigp}:sample-schema', f'{tag}: sample({n}) has shape {O.shape}, columns {list(out.columns)}', case=case)
